@@ -162,6 +162,7 @@ structure InvB (B : Nat) (c : Cfg G L) : Prop where
     (c.locals t).cur = .wait (c.locals t).w64 (c.locals t).addr (c.locals t).expect (c.locals t).timeout
   cur_notify : ∀ t, (c.locals t).pc.inNotify = true →
     (c.locals t).cur = .notify (c.locals t).addr (c.locals t).count
+  cur_store : ∀ t, (c.locals t).pc = .sPoint → ∃ a w v, (c.locals t).cur = .store a w v
   done_len : ∀ t, (c.locals t).done.length = (c.locals t).serial
   /-- each wait is marked (counted) at most once, over all notify calls -/
   marks_nodup : (c.g.marks.map (·.wait)).Nodup
@@ -178,6 +179,9 @@ structure InvB (B : Nat) (c : Cfg G L) : Prop where
     (marksOf c.g t (c.locals t).serial).length = (c.locals t).notified + (if (c.locals t).pc = .nSignal then 1 else 0)
   count_le : ∀ t, (c.locals t).pc.inNotify = true →
     (c.locals t).notified + (if (c.locals t).pc = .nSignal then 1 else 0) ≤ (c.locals t).count
+  /-- the waits marked by a running notify call are (still) in the list it walks -/
+  marks_listed : ∀ u, (c.locals u).pc.inLoop = true → ∀ m ∈ marksOf c.g u (c.locals u).serial,
+    ∃ n, (c.locals u).slot = some n ∧ (c.g.nodes n).live = true ∧ m.wait ∈ (c.g.nodes n).waits
   /-- completed notify calls returned exactly their number of marks, at most `count`, all on their address -/
   done_notify : ∀ t k d, (c.locals t).done[k]? = some d → ∀ a n, d.op = .notify a n →
     d.ret = (marksOf c.g t k).length ∧ d.ret ≤ n ∧ ∀ m ∈ marksOf c.g t k, m.addr = a
